@@ -10,12 +10,16 @@ reg("C07",
           "(quick) / 7 (thorough), cut by the deadline: the completed depth is reported per unit (measured: S=16 depth 4 quick / 5 thorough, S=64 depth 3 quick / 3 thorough - the thorough runs end at the cap of 7 million states). "
           "reduced alphabet (14 events per connection: 9 prepares covering every attribute kind, Execute 0|1, Write, disconnect, toggle): depth bound 8 quick / 10 thorough (measured: S=16 6 quick / 8 thorough, S=64 5 quick / 7 thorough). "
           "link layer world (real link_layer<server<shared_write_queue<64>>, llw::radio>, events CONNECT_IND by two centrals, 2 prepares, Execute 0|1, LL_TERMINATE_IND, "
-          "supervision timeout, empty event, advertising timeout): all sequences of length <= 7 quick / <= 9 thorough, cut by the deadline (measured 7 quick / 9 thorough)",
+          "supervision timeout, empty event, advertising timeout): all sequences of length <= 7 quick / <= 9 thorough, cut by the deadline (measured 7 quick / 9 thorough). "
+          "long element world (server<max_mtu_size<512>, shared_write_queue<700>>, 300 octet value, client MTU 512; Prepare with {1,250,251,252,253,255,256,257,300} value "
+          "octets at offset {0,44}, Execute 0|1): all sequences of length <= 4 quick / <= 5 thorough",
     units=[dict(src="harness/C07_prepared_writes.cpp",
                 variants=[dict(name="q16", defs=["QUEUE=16"]), dict(name="q64", defs=["QUEUE=64"]),
                           dict(name="q16-lite", defs=["QUEUE=16", "LITE=1"]), dict(name="q64-lite", defs=["QUEUE=64", "LITE=1"])]),
            # second world: the real link layer (does a lost connection release the queue?)
-           dict(src="harness/C07_ll_disconnect.cpp", link_ll=True)],
+           dict(src="harness/C07_ll_disconnect.cpp", link_ll=True),
+           # third world: queue elements of 255, 256, 257 ... octets (two octet length field) with an MTU of 512
+           dict(src="harness/C07_long_prepare.cpp")],
     quick_deadline=20, thorough_deadline=480,
     assumptions=["'would be permitted': a zero length Write Request to the attribute on the same connection and state is not answered with error 0x01/0x02/0x03/0x05/0x08/0x0c/0x0f",
                  "error code of a refused Prepare Write is not compared with the code of the Write Request (class only); insufficient authentication vs. insufficient encryption is out of scope",
